@@ -18,3 +18,9 @@ pub use iroh::{EndpointAddr, RelayUrl};
 pub use api::{Endpoint, EndpointError};
 pub use builder::Builder;
 pub use config::IrohConfig;
+
+/// Verification hook: the address lookup through which a node publishes its own transport info.
+#[cfg(p2panda_p2panda_verif)]
+pub mod verif {
+    pub use super::discovery::AddressBookDiscovery;
+}
